@@ -103,6 +103,11 @@ impl Personality for BlkPers {
                 self.ids += 1;
                 out = b"verif-disk-0001-xyzw"[..n].to_vec();
                 out.resize(dlen, 0);
+                if n == 7 && dlen >= 12 {
+                    // a device need not zero what follows the terminator
+                    out[9] = b'!';
+                    out[11] = 0xff;
+                }
                 idj = Some(out.iter().take(20).map(|b| *b as u64).collect());
             }
             _ => {}
